@@ -1,6 +1,6 @@
 """Which engines decide which property, with their budgets (seconds) per tier."""
 
-def stress(budget_q=25, budget_t=300, **kw):
+def stress(budget_q=25, budget_t=200, **kw):
     e = {"bin": "chan_stress", "pkg": "vh_channels", "budget": {"quick": budget_q, "thorough": budget_t}}
     e.update(kw)
     return e
@@ -22,21 +22,21 @@ def eng(bin, pkg, budget_q=20, budget_t=240, **kw):
     e.update(kw)
     return e
 
-def miri(bin, pkg="vh_channels", budget_t=300, shards=16, **kw):
+def miri(bin, pkg="vh_channels", budget_t=150, shards=16, **kw):
     """Thorough-only slice: the same engine interpreted by Miri (tiny shapes; cfg!(miri) shrinks the generators)."""
     e = {"bin": bin, "pkg": pkg, "kind": "miri", "tiers": ["thorough"], "budget": {"quick": 30, "thorough": budget_t},
          "shards": {"thorough": shards}}
     e.update(kw)
     return e
 
-def asan(bin, pkg="vh_channels", budget_t=120, shards=16, **kw):
+def asan(bin, pkg="vh_channels", budget_t=80, shards=16, **kw):
     """Thorough-only slice: the same engine built with AddressSanitizer + LeakSanitizer."""
     e = {"bin": bin, "pkg": pkg, "kind": "asan", "tiers": ["thorough"], "budget": {"quick": 30, "thorough": budget_t},
          "shards": {"thorough": shards}}
     e.update(kw)
     return e
 
-def tsan(bin, pkg="vh_channels", budget_t=150, shards=16, **kw):
+def tsan(bin, pkg="vh_channels", budget_t=100, shards=16, **kw):
     """Thorough-only slice: the same engine built with ThreadSanitizer (std rebuilt with -Zbuild-std)."""
     e = {"bin": bin, "pkg": pkg, "kind": "tsan", "tiers": ["thorough"], "budget": {"quick": 30, "thorough": budget_t},
          "shards": {"thorough": shards}}
@@ -57,10 +57,10 @@ SEQ_ASSUME = [
 
 REGISTRY = {
     "C01": {"engines": [stress(budget_q=20), stepper(budget_q=6, budget_t=90), asan("chan_stress"), tsan("chan_stress"),
-                        miri("chan_stepper", budget_t=240)],
+                        miri("chan_stepper")],
             "assumptions": COMMON_ASSUME + SAN_ASSUME},
     "C02": {"engines": [stress(budget_q=18), eng("chan_seq", "vh_channels", budget_q=7, budget_t=120, shards={"quick": 8, "thorough": 16}),
-                        tsan("chan_stress"), miri("chan_stress", budget_t=240)],
+                        tsan("chan_stress"), miri("chan_stress")],
             "assumptions": COMMON_ASSUME + SAN_ASSUME},
     "C03": {"engines": [stress(budget_q=18), eng("chan_seq", "vh_channels", budget_q=7, budget_t=120, shards={"quick": 8, "thorough": 16}),
                         tsan("chan_stress")],
@@ -69,19 +69,19 @@ REGISTRY = {
                         eng("topic_check", "vh_channels", budget_q=6, budget_t=120, shards={"quick": 8, "thorough": 16}),
                         eng("chan_seq", "vh_channels", budget_q=5, budget_t=120, shards={"quick": 8, "thorough": 16})],
             "assumptions": COMMON_ASSUME},
-    "C05": {"engines": [stress(), asan("chan_stress", budget_t=90), tsan("chan_stress", budget_t=120)], "assumptions": COMMON_ASSUME + SAN_ASSUME + [
+    "C05": {"engines": [stress(), asan("chan_stress", budget_t=90), tsan("chan_stress")], "assumptions": COMMON_ASSUME + SAN_ASSUME + [
         "progress verdicts: a thread counts as stuck only after 3 quiet windows with a healthy scheduler canary, all "
         "unfinished threads inside blocking calls, and either a legal spurious wake releases it or the history model "
         "shows its operation enabled"]},
-    "C06": {"engines": [stepper(), stress(budget_q=15, budget_t=240),
+    "C06": {"engines": [stepper(), stress(budget_q=15, budget_t=180),
                         eng("spmc_stress", "vh_channels", budget_q=6, budget_t=90, shards={"quick": 8, "thorough": 16}),
                         eng("topic_check", "vh_channels", budget_q=5, budget_t=60, shards={"quick": 8, "thorough": 16}, args={"all": {"only": "seq"}}),
                         asan("chan_stepper", budget_t=90), asan("chan_stress"),
-                        miri("chan_stepper"), miri("chan_stress", budget_t=240)], "assumptions": COMMON_ASSUME + SAN_ASSUME + [
+                        miri("chan_stepper"), miri("chan_stress")], "assumptions": COMMON_ASSUME + SAN_ASSUME + [
         "stepper: one in-flight future per handle; a Stream poll is followed through to Ready (abandoning the wrapper "
         "drops no library future); wakers never poll inline"]},
-    "C09": {"engines": [stress(budget_q=20), stepper(budget_q=6, budget_t=90), asan("chan_stress"), asan("chan_stepper", budget_t=60), tsan("chan_stress", budget_t=120),
-                        miri("chan_stress"), miri("chan_stepper", budget_t=240)], "assumptions": COMMON_ASSUME + SAN_ASSUME},
+    "C09": {"engines": [stress(budget_q=20), stepper(budget_q=6, budget_t=90), asan("chan_stress"), asan("chan_stepper", budget_t=60), tsan("chan_stress"),
+                        miri("chan_stress"), miri("chan_stepper")], "assumptions": COMMON_ASSUME + SAN_ASSUME},
     "C18": {"engines": [eng("ioc_check", "vh_ioc")], "assumptions": SEQ_ASSUME + [
         "cycle cases run in child processes; a hang is a violation only when every task of the child is provably asleep "
         "(no CPU tick, no context switch over 1.2 s), otherwise inconclusive"]},
@@ -89,8 +89,8 @@ REGISTRY = {
         "every generated case runs in a child process (logging init is process-global); custom and file appenders only"]},
     "C20": {"engines": [eng("enc_roller", "vh_logging")], "assumptions": SEQ_ASSUME + [
         "the roller is driven through the cfg-gated accessors with a scripted forward-moving clock over a private directory"]},
-    "C07": {"engines": [eng("spmc_stress", "vh_channels", budget_q=22, budget_t=300), stepper(budget_q=5, budget_t=60),
-                        asan("spmc_stress"), tsan("spmc_stress", budget_t=120), miri("spmc_stress", budget_t=240)],
+    "C07": {"engines": [eng("spmc_stress", "vh_channels", budget_q=22, budget_t=200), stepper(budget_q=5, budget_t=60),
+                        asan("spmc_stress"), tsan("spmc_stress"), miri("spmc_stress")],
             "assumptions": COMMON_ASSUME + SAN_ASSUME + [
         "a clone's start position is exact because the cloning thread is the only user of the parent handle"]},
     "C11": {"engines": [eng("cache_hist", "vh_cache", budget_q=20, budget_t=180)], "assumptions": COMMON_ASSUME},
@@ -106,9 +106,9 @@ REGISTRY = {
         "the model follows how the cache drives a policy: on_admit on every write, AdmitAndEvict victims leave the model, "
         "evict victims get no on_remove"]},
     "C17": {"engines": [eng("cache_seq", "vh_cache", budget_q=20, budget_t=240)], "assumptions": SEQ_ASSUME},
-    "C08": {"engines": [eng("topic_check", "vh_channels", budget_q=20, budget_t=240), asan("topic_check", budget_t=90)], "assumptions": SEQ_ASSUME + SAN_ASSUME + [
+    "C08": {"engines": [eng("topic_check", "vh_channels", budget_q=20, budget_t=180), asan("topic_check", budget_t=90)], "assumptions": SEQ_ASSUME + SAN_ASSUME + [
         "a receiver cloned after every sender handle is gone is unspecified by the statement: nothing is asserted about it"]},
-    "C10": {"engines": [eng("lock_stress", "vh_channels", budget_q=20, budget_t=240), asan("lock_stress"), tsan("lock_stress", budget_t=120), miri("lock_stress", budget_t=240)],
+    "C10": {"engines": [eng("lock_stress", "vh_channels", budget_q=20, budget_t=180), asan("lock_stress"), tsan("lock_stress"), miri("lock_stress")],
             "assumptions": COMMON_ASSUME + SAN_ASSUME + [
         "writer-not-starved is decided logically: readers may complete at most 10^6 further read sections after the writer "
         "called write(); the writer thread runs without injected delays in that scenario"]},
